@@ -58,6 +58,45 @@ def observe(model, pop, src):
     return out
 
 
+def poly_history(hid, rng):
+    """a closed history WITHOUT mating on an unphased matrix of another ploidy (dosages 0..P): the founder population and two
+    nested sub-populations taken with select_taxa / select (selection only: limits tighten, lost alleles stay lost)"""
+    from pybrops.model.gmod.DenseAdditiveLinearGenomicModel import DenseAdditiveLinearGenomicModel
+    from pybrops.popgen.gmat.DenseGenotypeMatrix import DenseGenotypeMatrix
+    L = rng.choice([3, 5, 8]); T = rng.choice([1, 2]); P = rng.choice([4, 4, 1, 3, 6])
+    u = np.array([[rng.choice([-3, -2, -1, 0, 1, 2, 3]) for _ in range(T)] for _ in range(L)], dtype=float)
+    beta = np.array([[rng.choice([0, 5, -7])] * T], dtype=float)
+    model = DenseAdditiveLinearGenomicModel(beta=beta, u_misc=None, u_a=u, trait=np.array(["t%d" % t for t in range(T)], dtype=object))
+    n = rng.choice([3, 5, 8, 40])
+    Z = np.array([[rng.randrange(P + 1) for _ in range(L)] for _ in range(n)], dtype="int8")
+    for l in range(L):
+        r = rng.random()
+        if r < 0.2:
+            Z[:, l] = P
+        elif r < 0.35:
+            Z[:, l] = 0
+        elif r < 0.5:
+            Z[:, l] = P // 2 if P > 1 else rng.randrange(2)       # every individual carries half of its copies
+    pop = DenseGenotypeMatrix(Z, taxa=np.array(["x%03d" % i for i in range(n)], dtype=object), taxa_grp=np.zeros(n, dtype="int64"), ploidy=P)
+    gens = []
+    for step in range(3):
+        m = np.asarray(pop.mat).astype(int)
+        out = {"n": int(pop.ntaxa), "a": [int(x) for x in m.sum(0)], "src": "unphased-ploidy-%d%s" % (P, "" if step == 0 else "-selected"), "pl": P}
+        lat = True
+        for key, fn, un in (("usl0", model.usl, False), ("lsl0", model.lsl, False), ("usl1", model.usl, True), ("lsl1", model.lsl, True)):
+            v, ok = ints(fn(pop, unscale=un)); out[key] = v; lat = lat and ok
+        g = np.asarray(model.gebv(pop).unscale(), dtype=float)
+        gmin, ok1 = ints(g.min(0)); gmax, ok2 = ints(g.max(0))
+        out["gmin"] = gmin; out["gmax"] = gmax; out["lat"] = bool(lat and ok1 and ok2)
+        gens.append(out)
+        if pop.ntaxa < 2:
+            break
+        k = rng.randrange(1, pop.ntaxa)
+        ix = np.array(sorted(rng.sample(range(pop.ntaxa), k)))
+        pop = pop.select_taxa(ix) if step == 0 else pop.select(ix, axis=pop.taxa_axis)
+    return {"id": hid, "u": u.astype(int).tolist(), "beta": [int(x) for x in beta[0]], "nfixed": 1, "gens": gens}
+
+
 def history(hid, rng):
     from pybrops.model.gmod.DenseAdditiveLinearGenomicModel import DenseAdditiveLinearGenomicModel
     nrng = np.random.default_rng(rng.randrange(2 ** 32))
@@ -133,6 +172,11 @@ def run(ctx):
         except Exception as e:
             import traceback
             ctx.violation("closed-programme:exception", "%s: %s" % (type(e).__name__, e), traceback.format_exc()[-1500:])
+    for _ in range(36 if thorough else 12):
+        try:
+            allc.append(poly_history(len(allc) + 1, rng))
+        except Exception as e:
+            ctx.violation("polyploid-selection-history:exception", "%s: %s" % (type(e).__name__, e), {})
     verd = cases.validate(ctx, "SelLimits_Trace", "SelLimits_Trace.cfg", allc, "SelLimits_Trace", chunk=4, procs=14)
     ctx.traces += len(allc)
     for c in allc:
